@@ -179,6 +179,10 @@ func coreNumbers(m *M) (core []int, degeneracy int) {
 }
 
 func checkUnd(c undCase) *vk.Failure {
+	return withIndet(c.G, func(g G) *vk.Failure { c2 := c; c2.G = g; return checkUnd1(c2) })
+}
+
+func checkUnd1(c undCase) *vk.Failure {
 	c.Dir = false
 	m := model(c.G)
 	n := m.n
@@ -293,10 +297,14 @@ func checkUnd(c undCase) *vk.Failure {
 	if f := vk.MustPanic("kclique-k0", func() { community.KCliqueCommunities(0, g) }); f != nil {
 		return f
 	}
-	// KCore for k beyond degeneracy+1 (last: it is a known finding).
+	if f := checkUndEqual(m, g, c.Ord); f != nil {
+		return f
+	}
+	// KCore for k beyond degeneracy+1 and for negative k (every node has at
+	// least k neighbours when k <= 0: the k-core is the whole graph).
 	if n > 0 {
 		core, d := coreNumbers(m)
-		if c.K > d+1 {
+		if c.K > d+1 || c.K < 0 {
 			if f := checkKCore(m, g, c.K, core, d); f != nil {
 				return f
 			}
@@ -346,6 +354,16 @@ func checkUndPaths(m *M, g graph.Undirected, comp []int, seed uint64) *vk.Failur
 			return vk.Failf("und-ispathin", "IsPathIn(%s)=%v want %v", fmtNodes(p), got, want)
 		}
 	}
+	return nil
+}
+
+// checkUndEqual: topo.Equal on undirected graphs (called last: see withIndet).
+func checkUndEqual(m *M, g graph.Undirected, seed uint64) *vk.Failure {
+	n := m.n
+	if n == 0 {
+		return nil
+	}
+	q := vk.NewSplitMix(seed ^ 0x7b7b)
 	g2 := m.undirected(0x99)
 	if !topo.Equal(g, g2) || !topo.Equal(g2, g) {
 		return vk.Failf("und-equal-same", "Equal(g, copy of g) = false")
@@ -527,6 +545,10 @@ func checkKCore(m *M, g graph.Undirected, k int, core []int, d int) *vk.Failure 
 	var kc []graph.Node
 	r := vk.Call(func() { kc = topo.KCore(k, g) })
 	if r.Outcome != vk.Returned {
+		if k < 0 {
+			// Specific key: negative k.
+			return vk.Failf("kcore-panic-negative-k", "KCore(%d, g) ended in %v: %s (every node has at least %d neighbours: the %d-core is the whole graph)", k, r.Outcome, r.Text, k, k)
+		}
 		if k > d+1 {
 			// Specific key: k beyond degeneracy+1 (the k-core is empty).
 			return vk.Failf("kcore-panic-k-beyond-degeneracy", "KCore(%d, g) on a graph of degeneracy %d ended in %v: %s (the %d-core is the empty set)", k, d, r.Outcome, r.Text, k)
@@ -788,7 +810,7 @@ func checkKCommunities(m *M, g graph.Undirected, k int, comp []int, nc int) *vk.
 
 func drawUnd(t *rapid.T) undCase {
 	var g G
-	conts := []int{contOrdered, contOrdered, contSimple, contMulti}
+	conts := []int{contOrdered, contOrdered, contSimple, contMulti, contIndet}
 	switch rapid.IntRange(0, 9).Draw(t, "szcls") {
 	case 0, 1, 2, 3, 4, 5:
 		g = drawG(t, false, 12, undClasses, conts)
@@ -798,8 +820,11 @@ func drawUnd(t *rapid.T) undCase {
 		g = drawG(t, false, 40, []string{"sparse", "comps", "cycle", "cliquey", "bipartite", "tree"}, conts)
 	}
 	k := 0
-	if rapid.IntRange(0, 3).Draw(t, "kbig") == 0 {
+	switch rapid.IntRange(0, 7).Draw(t, "kbig") {
+	case 0, 1:
 		k = rapid.IntRange(5, 45).Draw(t, "k")
+	case 2:
+		k = rapid.IntRange(-3, -1).Draw(t, "kneg")
 	}
 	return undCase{G: g, K: k}
 }
